@@ -97,6 +97,12 @@ def cases(ctx):
         tables = [child(rng, p) for _ in range(ns)]
         if rng.random() < 0.15:
             tables[rng.randrange(ns)] = [list(r) for r in p]           # one structure complete
+        # quick tier: the Model driver enumerates the nested loops of the join (product of the structure sizes: 40^4 for four full
+        # structures took 40 of the 60 s of a quick run); three / four structures are cut to 14 / 8 records there, two structures and the
+        # whole thorough tier are untouched (no family is dropped, the random stream is the same)
+        cap = ctx.scale({3: 14, 4: 8}, {}).get(ns)
+        if cap:
+            tables = [t[:cap] for t in tables]
         names = ['ATOM'] + ['ATOM%d' % i for i in range(1, ns)]
         if f % 2 == 1:
             # user-chosen table names, in an order that is neither alphabetical nor reverse alphabetical: the structures
@@ -440,3 +446,95 @@ def extra_checks(ctx):
     res.append({'name': f'per-structure queries and sub-selections on {len(fams)} families (short lists; lists of 951+ values on 1100-2100 atom structures)',
                 'ok': True, 'case': None, 'detail': ''})
     return res
+
+
+# ======================================================================================================================
+# BEGIN manyTie -- translated-code tie: GENERATED many2sql.intersect / get_all (Gen/Many.lean, namespace GenM, run by the
+# driver ops genm_intersect / genm_get_all of Driver/ExtMany.lean with the text side GenM.Ext.text) against the REAL code
+# on the same generated inputs; every mismatch is an entry.  Stay inside this block.
+# ======================================================================================================================
+GEN_UNITS = GEN_UNITS + ['many_defaults', 'many_runtime', 'many_convert_input', 'many_init', 'many_intersect', 'many_get_all']
+
+
+def genm_many_checks(ctx):
+    import vlib
+    rng = ctx.rng
+    subsets = [list(s) for r in range(1, 5) for s in itertools.combinations(MATCHABLE, r)]
+    more = [['serial'], ['name', 'resSeq', 'chainID', 'x'], ['element', 'name'], ['foo'], ['name', 'bar'], []]
+    columns = ['*', 'x,y,z', 'serial', 'name,resSeq,chainID', 'serial,x', 'temp,name', 'chainID', 'rowID', 'rowID,x', 'zz', 'x,foo']
+    lines, real, meta = [], [], []
+    for f in range(ctx.scale(16, 120)):
+        p = parent(rng)
+        ns = rng.choice([1, 2, 2, 3, 4])
+        cap = {1: 14, 2: 12, 3: 8, 4: 6}[ns]
+        tables = [child(rng, p)[:cap] for _ in range(ns)]
+        names = ['ATOM'] + ['ATOM%d' % i for i in range(1, ns)]
+        default = f % 2 == 0
+        if not default:
+            names = rng.sample(['wildtype', 'mutant', 'apo', 'Zeta', 'b2', 'ATOM9', 'model_10', 'holo'], ns)
+        plines = [[B.atom_line(r) for r in t] for t in tables]
+        db = call(lambda: many2sql(plines) if default else many2sql(plines, tablenames=list(names)))
+        if is_err(db):
+            continue
+        dbj = db_json(list(zip(names, tables)))
+        for k in range(ctx.scale(8, 16)):
+            if rng.random() < 0.5:
+                m = rng.choice(subsets + more)
+                use_default = rng.random() < 0.2
+                new = call(lambda: db.intersect() if use_default else db.intersect(match=list(m)))
+                if is_err(new):
+                    out = new
+                else:
+                    nn = new._get_table_names()
+                    out = {'names': list(nn), 'tuples': aligned([canon(new.c.execute(f'select * from {n}').fetchall()) for n in nn]), 'nModel': int(new._nModel)}
+                case = {'op': 'genm_intersect', 'db': dbj}
+                if not use_default:
+                    case['match'] = m
+            else:
+                col = rng.choice(columns)
+                kws = {}
+                u = rng.random()
+                if u < 0.3:
+                    kws = {'chainID': rng.choice(['A', 'B', ['A', 'B']])}
+                elif u < 0.5:
+                    kws = {'name': ['CA', 'N'], 'no_resName': ['GLY']}
+                elif u < 0.6:
+                    kws = {'resSeq': rng.sample(range(1, 12), 4)}
+                elif u < 0.65:
+                    kws = {'bogus': 1}
+                got = call(lambda: db.get_all(col, **{a: (list(b) if isinstance(b, list) else b) for a, b in kws.items()}))
+                out = got if is_err(got) else canon(got)
+                case = {'op': 'genm_get_all', 'db': dbj, 'columns': col, 'kw': B.jkw(list(kws.items()))}
+            lines.append(case)
+            real.append(out)
+            meta.append(case['op'])
+    ans = vlib.run_driver(lines, which='model', cluster=CLUSTER) if lines else []
+    res = []
+    for opname, label, floor in (('genm_intersect', 'many2sql.intersect', 30), ('genm_get_all', 'many2sql.get_all', 30)):
+        bad, n, disc, nerr = None, 0, 0, 0
+        for ln, r, a, o in zip(lines, real, ans, meta):
+            if o != opname:
+                continue
+            g = a.get('model')
+            if isinstance(g, str) and g.startswith('ERR:UNMODELLED'):
+                disc += 1
+                continue
+            n += 1
+            nerr += 1 if is_err(r) else 0
+            if opname == 'genm_intersect' and not isinstance(g, str):
+                g = {'names': [t['name'] for t in g['tabs']], 'tuples': aligned([t['rows'] for t in g['tabs']]), 'nModel': g['nModel']}
+            if g != r and bad is None:
+                bad = {'case': ln if len(json.dumps(ln)) < 2500 else json.dumps(ln)[:2500], 'real code': short(r), 'generated (Gen/Many.lean)': short(g)}
+        res.append({'name': f'{label}: real code = generated function on {n} calls ({nerr} raising, {disc} outside the model)', 'ok': bad is None and n >= floor,
+                    'case': bad, 'detail': 'implementation = generated (intersect: names, _nModel, SORTED aligned tuples of the new tables; get_all: the lists)', 'kind': 'genm'})
+    return res
+
+
+_manyTie_prev_extra_checks = extra_checks
+
+
+def extra_checks(ctx):                  # noqa: F811  (extends the definition above; its results come first, unchanged)
+    return _manyTie_prev_extra_checks(ctx) + genm_many_checks(ctx)
+# ======================================================================================================================
+# END manyTie
+# ======================================================================================================================
